@@ -384,6 +384,18 @@ func cdcWorkerMain() {
 					if req.Node != nil {
 						want := typegen.Build(cdc.Type, req.Node, 0)
 						resp.Diff = typegen.Equal(want, reflect.ValueOf(ptr).Elem())
+						if resp.Diff == "" {
+							// the decoded value owns its memory: the caller re-uses its input buffer
+							for i := range data {
+								data[i] ^= 0xFF
+							}
+							if d := typegen.Equal(want, reflect.ValueOf(ptr).Elem()); d != "" {
+								resp.Diff = "after the input buffer was overwritten by its owner the decoded value changed (it aliases the input): " + d
+							}
+							for i := range data {
+								data[i] ^= 0xFF
+							}
+						}
 					}
 					if req.Reenc {
 						var b []byte
